@@ -54,7 +54,13 @@ SemC(f, rho) ==
     CASE k = "true"  -> R(NAsg, TRUE)
       [] k = "false" -> R({}, TRUE)
       [] k = "var"   -> R(IF f[2] \in DOMAIN rho THEN rho[f[2]] ELSE {s \in NAsg : s[f[2]]}, TRUE)
-      [] k = "ref"   -> R({}, TRUE)                          \* an undefined reference is false
+      [] k = "ref"   -> \* a named definition (API: ParsedFormula::define), bound in rho under "ref:" \o name as
+                        \* <<"bdd", set>> or <<"syntax", tree>> (evaluated in the current context, like the
+                        \* implementation's substitution through references); an undefined reference is false
+                        (LET key == "ref:" \o f[2] IN
+                         IF key \in DOMAIN rho
+                         THEN (IF rho[key][1] = "bdd" THEN R(rho[key][2], TRUE) ELSE SemC(rho[key][2], rho))
+                         ELSE R({}, TRUE))
       [] k = "not"   -> (LET a == SemC(f[2], rho) IN R(NAsg \ a.s, a.ok))
       [] k = "bin"   -> (LET L == SemC(f[3], rho)
                              Rr == SemC(f[4], rho)
